@@ -60,8 +60,6 @@ vars == <<req, cb, pc, actual, authz, cov, out>>
 Range(s) == {s[i] : i \in DOMAIN s}
 Max(a, b) == IF a > b THEN a ELSE b
 Min(a, b) == IF a < b THEN a ELSE b
-SetMin(S) == CHOOSE x \in S : \A y \in S : x <= y
-BIG == 2000000000
 NONE == "none"
 
 GroupThis == "g" \in DOMAIN Kinds
@@ -91,18 +89,21 @@ ASSUME \A id \in DOMAIN GeomTab : WellFormed(GeomTab[id])
 Gap(lo, hi, v) == IF v < lo THEN lo - v ELSE IF v > hi THEN v - hi ELSE 0
 D2(p, r) == LET dx == Gap(r[1], r[3], p[1])
                 dy == Gap(r[2], r[4], p[2]) IN dx * dx + dy * dy
-DistOut2(g, p) == IF g.cells = {} THEN BIG ELSE SetMin({D2(p, Rect(g, c)) : c \in g.cells})
-DistIn2(g, p)  == SetMin({D2(p, Rect(g, c)) : c \in Cells(g) \ g.cells})
+\* is p farther than sqrt(d2) from the area / from the complement of the area?
+FarOutside(g, p, d2) == \A c \in g.cells : D2(p, Rect(g, c)) > d2
+FarInside(g, p, d2)  == \A c \in Cells(g) \ g.cells : D2(p, Rect(g, c)) > d2
 
 Class(id, p, one2) ==
   LET g == GeomTab[id] IN
-  IF DistOut2(g, p) > one2 THEN "out" ELSE IF DistIn2(g, p) > one2 THEN "in" ELSE "band"
+  IF FarOutside(g, p, one2) THEN "out" ELSE IF FarInside(g, p, one2) THEN "in" ELSE "band"
 ClassSet(ids, p, one2) ==
-  IF \E id \in ids : Class(id, p, one2) = "out" THEN "out"
-  ELSE IF \A id \in ids : Class(id, p, one2) = "in" THEN "in" ELSE "band"
+  IF ids = {} THEN "in"
+  ELSE LET cl == [id \in ids |-> Class(id, p, one2)] IN
+       IF \E id \in ids : cl[id] = "out" THEN "out"
+       ELSE IF \A id \in ids : cl[id] = "in" THEN "in" ELSE "band"
 PointClass(id, p) ==
   LET g == GeomTab[id] IN
-  IF DistOut2(g, p) > 0 THEN "out" ELSE IF DistIn2(g, p) > 0 THEN "in" ELSE "edge"
+  IF FarOutside(g, p, 0) THEN "out" ELSE IF FarInside(g, p, 0) THEN "in" ELSE "edge"
 
 Overlap(a, b) == Max(0, Min(a[3], b[3]) - Max(a[1], b[1])) * Max(0, Min(a[4], b[4]) - Max(a[2], b[2]))
 Touches(a, b) == a[1] <= b[3] /\ b[1] <= a[3] /\ a[2] <= b[4] /\ b[2] <= a[4]
